@@ -30,7 +30,7 @@ def cfg_for(states, with_lost_persistent, extra=None):
     peers.append({"name": "newcomer.example.org"})      # index len(states): a configured peer that connects during the shutdown
     if with_lost_persistent:
         peers.append({"name": "lost.example.org", "ips": ["10.1.0.99"], "persistent": True, "reconnect_wait": 4, "always_reconnect": True})
-    return {"node": {"ips": ["10.0.0.1"], "tcp_port": 3868, "cer_timeout": 600, "cea_timeout": 600, "idle_timeout": 600, "dwa_timeout": 600, "wakeup": 1},
+    return {"node": {"ips": ["10.0.0.1"] if extra != "multi_listen" else ["10.0.0.1", "10.0.0.2", "10.0.0.3", "10.0.0.4"], "tcp_port": 3868, "cer_timeout": 600, "cea_timeout": 600, "idle_timeout": 600, "dwa_timeout": 600, "wakeup": 1},
             "peers": peers,
             # (the schedule exploration of a reconnect due at stop() uses a plain application: worker threads that all wake up at once
             # multiply the orders to explore without touching the dial path)
@@ -278,6 +278,10 @@ def all_cases(tier):
                             cases.append((states, reaction, force, wt, None, False, "same_peer"))
                         if "await_cer" in states and wt == 5:
                             cases.append((states, reaction, force, wt, None, False, "late_cer"))
+    # a node listening on four addresses
+    for states in ((), ("ready",), ("await_cer", "ready")):
+        for force in (False, True):
+            cases.append((states, "dpa_now" if states and not force else "never", force, 2, None if not states else 0, False, "multi_listen"))
     cases.append((("ready", "ready"), "dpa_now", False, 5, None, False, "flood"))
     cases.append((("waiting_dwa", "ready"), "dpa_now", False, 5, None, False, "flood"))
     return cases
@@ -339,7 +343,7 @@ def run(tier):
                             "call granularity + every line of stop()) of stop() against the I/O thread for 2 (quick) / 4 (thorough) cases, and for 2 cases whose "
                             "persistent-peer reconnect is due in the instant of stop() with every line of _reconnect_peers/_connect_to_peer (quick: at most 2 "
                             "non-default choices at blocking points); extra cases: output pending behind the DPR, CER completing inside the window, two "
-                            "ready connections of one peer"})
+                            "ready connections of one peer, a node listening on four addresses"})
     return rep.finish()
 
 
